@@ -278,6 +278,22 @@ theorem C09_poisson_min {scale : ℝ} (hs : 0 ≤ scale) (y ax const : List ℝ)
 example : poissonLoss (1 : ℝ) [2] [2] [0] ≤ poissonLoss (1 : ℝ) [2] [5] [0] :=
   C09_poisson_min zero_le_one _ _ _ rfl rfl (by simp) (by simp)
 
+/-! ### proximal average -/
+
+/-- `ProximalAverage`: a weight list of the wrong length is rejected; the stored weights sum to one (default `1/N`
+    for `N ≥ 1` functionals; given weights with non-zero sum, kept when they already sum to one and divided by
+    their sum otherwise); `__call__` is `Σ α_i f_i(x)`, with `no_inf_eval` the infinite terms count as `0` -/
+theorem C09_proxavg (n : Nat) (hn : 0 < n) (al : List ℝ) (hs : al.sum ≠ 0) (isInf : ℝ → Bool) (ws vals : List ℝ) :
+    (al.length ≠ n → proxAvgInit (n : ℝ) (some al) n = none) ∧
+    (proxAvgWeights (n : ℝ) none n).sum = 1 ∧ (proxAvgWeights (n : ℝ) (some al) n).sum = 1 ∧
+    proxAvgEval isInf false ws vals = (List.zipWith (· * ·) ws vals).sum ∧
+    proxAvgEval isInf true ws vals = ((List.zipWith (· * ·) ws vals).map (fun a => if isInf a then 0 else a)).sum :=
+  ⟨fun h => by simp [proxAvgInit, h], (proxAvgWeights_sum_one n hn al hs).1, (proxAvgWeights_sum_one n hn al hs).2.2.1,
+   proxAvgEval_sum isInf ws vals, proxAvgEval_filter isInf ws vals⟩
+
+example : proxAvgWeights (2 : ℝ) (some [1, 3]) 2 = [1 / 4, 3 / 4] := by
+  norm_num [proxAvgWeights, isZero]
+
 /-! ### metrics -/
 
 /-- `mse ≥ 0` (non-empty images: the mean divides by the number of entries);
